@@ -23,7 +23,7 @@ RULE = ('Seeded cases over the 8 process time zones %s (switched in-process with
         'zoneinfo-computed local time, invalid ones (2024-02-30, month 13, hour 25, bad separators, truncated, no offset) parse to null without '
         'a failed-call debug log. Non-trivial: a component out of its natural range, or d within 2 h of a transition, or a zone with a non-hour '
         'offset. Distinct by zone + arguments.') % (', '.join(ZONES),)
-RULE += ' Also: valid ISO texts made invalid by one edit a lenient parser forgives (non-ASCII digit, trailing / leading white space or NUL, non-ASCII punctuation, doubled separator); offset changes back to 1900 incl. the last second before the change with a millisecond part (Kolkata 1941-45, Chatham 1946); the same datetimeNew call with -1 and -2 exchanged in one process.'
+RULE += ' Also: valid ISO texts made invalid by one edit a lenient parser forgives (non-ASCII digit, trailing / leading white space or NUL, non-ASCII punctuation, doubled separator); offset changes back to 1900 incl. the last second before the change with a millisecond part (Kolkata 1941-45, Chatham 1946); the same datetimeNew call with -1 and -2 exchanged in one process. Round 5: the instant handed over as a zone-aware datetime with another UTC offset.'
 ASSUMPTIONS = ['zoneinfo (the platform tz database) decides which local times exist and which instant they denote',
                'local times that do not exist (spring-forward gap) or whose UTC offset has seconds (pre-standard LMT) are skipped and counted',
                'results outside years 1-9999 must fail (null)']
